@@ -600,6 +600,9 @@ class SymEx:
                     continue
                 seen.add(k_)
                 out.append(p)
+        if self.M.projections() or derived_exprs(self.M):
+            for p in out:
+                lift_path(p, self.M.projections(), derived=derived_exprs(self.M))
         return out
 
     @property
@@ -3256,7 +3259,7 @@ class SymEx:
         if fv == ('ext', 'dataclasses.replace') and self._dc_replace(args, kws) is not None:
             return [(st, self._dc_replace(args, kws))]
         if fv in (('ext', 'LIST'), ('ext', 'TUPLE')) and len(args) == 1 and not kws and args[0][0] in ('tuple', 'list') and not any(z_[0] == 'starred' for z_ in args[0][1]) \
-                and all(z_[0] in ('str', 'num', 'const') for z_ in args[0][1]):
+                and (all(z_[0] in ('str', 'num', 'const') for z_ in args[0][1]) or (args[0][0] == 'list' and fv[1] == 'LIST')):
             return [(st, ('list' if fv[1] == 'LIST' else 'tuple', args[0][1]))]          # list(('a', 'b')) of constants written out
         if fv == ('ext', 'builtins.getattr') and len(args) == 2 and not kws and args[1][0] == 'str' and len(e.args) == 2 and args[1][1].isidentifier():
             # getattr(x, 'name') is x.name
@@ -3312,6 +3315,9 @@ class SymEx:
                     else:
                         terms_.append(('or', tuple(('not', c_) for c_ in cs_) + (e_,)) if cs_ else e_)
                 args = [('list', tuple(terms_))]
+        if fv == ('ext', 'itertools.islice') and len(args) == 2 and not kws and args[0][0] in ('list', 'tuple') and args[1][0] == 'num' and args[1][1].denominator == 1 \
+                and not any(z[0] == 'starred' for z in args[0][1]):
+            return [(st, ('list', tuple(args[0][1][:int(args[1][1])])))]          # the first n of a written-out sequence
         if fv == ('ext', 'functools.reduce') and len(args) == 2 and not kws and args[0] == ('ext', 'operator.add') and args[1][0] in ('list', 'tuple') and args[1][1] \
                 and not any(z[0] == 'starred' for z in args[1][1]):
             tot = args[1][1][0]                                     # a left fold of + over a written-out sequence
